@@ -333,27 +333,29 @@ func (t *c13IdxTexts) note(codec uint64, text string) (other, clash string) {
 
 // c13LibZeroEOF tells whether cmd/car/lib.InspectCar reads with ZeroLengthSectionAsEOF: which
 // options InspectCar hard-codes is not part of the statement, only that its verdict and report
-// agree with the scan made under the same options. Probed once per process on a fixed valid
-// null-padded CARv1 (handle positioned at the end of the file, see the C19 note in c13Files).
-var c13LibZeroEOF = func() func(dir string) bool {
+// agree with the scan made under the same options. Probed once per process, per CAR version, on a fixed
+// valid null-padded archive (handle positioned at the end of the file, see the C19 note in c13Files).
+var c13LibZeroEOF = func() func(dir string, version int) bool {
 	var once sync.Once
-	var zero bool
-	return func(dir string) bool {
+	zero := map[int]bool{}
+	return func(dir string, version int) bool {
 		once.Do(func() {
-			file, _, _, _, _ := c13Build(C13Case{Roots: "a", Seq: []string{"a"}, Cont: "v1null"})
-			f, err := os.CreateTemp(dir, "c13-libprobe-*.car")
-			if err != nil {
-				panic(err)
+			for v, cont := range map[int]string{1: "v1null", 2: "v2null"} {
+				file, _, _, _, _ := c13Build(C13Case{Roots: "a", Seq: []string{"a"}, Cont: cont})
+				f, err := os.CreateTemp(dir, "c13-libprobe-*.car")
+				if err != nil {
+					panic(err)
+				}
+				if _, err := f.Write(file); err != nil {
+					panic(err)
+				}
+				_, ierr := lib.InspectCar(f, true)
+				zero[v] = ierr == nil
+				f.Close()
+				os.Remove(f.Name())
 			}
-			defer os.Remove(f.Name())
-			defer f.Close()
-			if _, err := f.Write(file); err != nil {
-				panic(err)
-			}
-			_, ierr := lib.InspectCar(f, true)
-			zero = ierr == nil
 		})
-		return zero
+		return zero[version]
 	}
 }()
 
@@ -501,7 +503,7 @@ func c13Check(x *kit.Ctx, cs C13Case, cf *c13File, input []byte, mut *C13Mut) st
 	x.Outcome(out)
 
 	// ---- file-backed entry points
-	if cs.Files == 2 || (cs.Files == 1 && (mut == nil || mut.Kind == "trunc" || (or.want && cs.ZeroEOF == c13LibZeroEOF(x.Dir)))) {
+	if cs.Files == 2 || (cs.Files == 1 && (mut == nil || mut.Kind == "trunc" || (or.want && cs.ZeroEOF == c13LibZeroEOF(x.Dir, int(or.version))))) {
 		c13Files(x, cs, rc, cf, or, opts, cs.Files == 2 || mut == nil || mut.Kind == "trunc")
 	}
 	return out
@@ -570,7 +572,7 @@ func c13Files(x *kit.Ctx, cs, rc C13Case, cf *c13File, or *c13Oracle, opts []car
 			c13Judge(x, rc, "mmap", or, s, e)
 		}
 	}
-	if cs.ZeroEOF == c13LibZeroEOF(x.Dir) && cs.MaxSect == 0 && cs.MaxHdr == 0 {
+	if cs.ZeroEOF == c13LibZeroEOF(x.Dir, int(or.version)) && cs.MaxSect == 0 && cs.MaxHdr == 0 {
 		rep, err := lib.InspectCar(f, true)
 		if or.version == 1 && or.want && err != nil {
 			// C19's known finding c19:inspect-full-v1:trailing-data-probe: the probe Reads from the
